@@ -405,7 +405,9 @@ struct Interp : World<Spline, TM, SM>
         EvalResult clean = this->twin_eval(m, x, three);
         EvalResult faulty = gf.functor ? this->twin_eval(m, x, three, &gf) : clean;
         const double eps = 1e-6;
-        const double tol = defaults ? 1e-4 : 1e-5 * (1.0 + clean.grad.norm());
+        // "the tolerance": relative to the gradient norm plus the rounding-noise floor of a central difference with this
+        // step (eps_machine * |cost| / eps per component); the measured worst err/tol is in the margin.selfcheck counters
+        const double tol = defaults ? 1e-4 : 3e-4 * (1.0 + clean.grad.norm()) + 1000.0 * DBL_EPSILON * std::fabs(clean.cost) * std::sqrt((double)n) / eps;
         Trace tr;
         tr.reset(N);
         CC cc;
